@@ -149,6 +149,14 @@ func vTrace(tag string, vals ...int64) {
 
 func vSymbolic() bool { return false }
 
+func vAnd(a, b bool) bool { return a && b }
+func vIte(c bool, a, b int64) int64 {
+	if c {
+		return a
+	}
+	return b
+}
+
 // ---------------------------------------------------------------------------
 // Cooperative controller for harness threads: exactly one controlled goroutine
 // holds the baton; hand-overs follow the switch list recorded by the engine.
